@@ -44,6 +44,9 @@ def run(tier, seed):
     vlib.history_check(chk, "d_kernel", ["replace"], "H_Exec", quick, seed, nseeds_quick=300, nseeds_thorough=3000,
                        optsets=(("nes=0", "cfg=0"),), free_runs=0, env={"ABTV_BUDGET": "400000"},
                        what="after ABT_xstream_set_main_sched[_basic] the caller or another unit is lost / runs twice / the stream cannot be joined")
+    vlib.history_check(chk, "d_kernel", ["rejoin"], "H_Exec", quick, seed, nseeds_quick=200, nseeds_thorough=2000,
+                       optsets=(("nes=1", "cfg=0"), ("nes=1", "cfg=3"), ("nes=1", "cfg=5")), free_runs=0, env={"ABTV_BUDGET": "400000"},
+                       what="a join requested before the joined stream replaced its main scheduler never returns / returns early")
     chk.extra["runs_by_verdict"] = {"done": len(done), "abnormal": len(abnormal)}
     chk.assumptions += ["sequential histories are validated deterministically; the concurrent scenario (3 external creators) by linearizability search",
                         "the linked-list model assumes the primary stream owns rank 0 for the whole run (checked invariant HeadIsPrimary); "
@@ -53,7 +56,7 @@ def run(tier, seed):
 
 def replay(path):
     evs = vlib.read_ndjson(path)
-    if evs and evs[0].get("scn") == "replace":
+    if evs and evs[0].get("scn") in ("replace", "rejoin"):
         return vlib.generic_replay(PID, "H_Exec", path)
     chk = vlib.Check(PID, "quick", 0)
     runs = vlib.split_runs(evs)
